@@ -395,6 +395,7 @@ class BaseInput:
         if transformers:
             all_columns = self._dataframe
             if need_categorical:
+                all_columns = all_columns.copy()  # Do not leave categorical dtypes in the caller-visible table.
                 all_columns[need_categorical] = all_columns[need_categorical].astype('category')
 
             all_columns = all_columns.transform(transformers)
